@@ -152,3 +152,31 @@ func StealBytes(reader io.WriterTo) ([]byte, error) {
 
 	return stealer.Data, nil
 }
+
+// ExactReader returns a Reader that reads exactly n bytes from r.
+// Unlike io.LimitReader it reports io.ErrUnexpectedEOF when r ends before n
+// bytes have been read, so that a frame cut short by the end of the stream is
+// not mistaken for a complete one.
+func ExactReader(r io.Reader, n int64) io.Reader {
+	return &exactReader{r: r, n: n}
+}
+
+type exactReader struct {
+	r io.Reader
+	n int64 // bytes remaining
+}
+
+func (e *exactReader) Read(p []byte) (n int, err error) {
+	if e.n <= 0 {
+		return 0, io.EOF
+	}
+	if int64(len(p)) > e.n {
+		p = p[:e.n]
+	}
+	n, err = e.r.Read(p)
+	e.n -= int64(n)
+	if err == io.EOF && e.n > 0 {
+		err = io.ErrUnexpectedEOF
+	}
+	return
+}
